@@ -9,4 +9,5 @@ INVARIANT SameAnswer
 INVARIANT RecordedIsExecuted
 INVARIANT FaultMeansNoRun
 INVARIANT MutexPerKey
+INVARIANT BypassUnaffected
 INVARIANT NoStuck
